@@ -333,6 +333,7 @@ pub enum Kind {
     ConvertUnsafeNY,
     // VectorInstructions: element type, M, A
     VecObserve { t: Ty, m: usize, a: usize, filler: Option<V> },
+    VecFlags { t: Ty, m: usize, a: usize },
     VecTrim { t: Ty, m: usize, a: usize, n: usize },
     VecResize { t: Ty, m: usize, a: usize, l: usize },
     // MapInstructions
@@ -405,7 +406,7 @@ impl Kind {
             DivRem { .. } | Rem { .. } => "DivisionInstructions",
             Select(_) | CondAssertEqual(_) | CondSwap(_) => "ControlFlowInstructions",
             Convert { .. } | ConvertUnsafeNY => "ConversionInstructions",
-            VecObserve { .. } | VecTrim { .. } | VecResize { .. } => "VectorInstructions",
+            VecObserve { .. } | VecFlags { .. } | VecTrim { .. } | VecResize { .. } => "VectorInstructions",
             MapGet | MapInsert => "MapInstructions",
         }
     }
@@ -488,13 +489,10 @@ impl Kind {
             CondSwap(t) => format!("cond_swap<{}>", t.tag()),
             Convert { from, to } => format!("convert<{}->{}>", from.tag(), to.tag()),
             ConvertUnsafeNY => "convert_unsafe<native->byte>".into(),
-            VecObserve { t, filler, .. } => format!(
-                "vector.assign_with_filler[{}]+get_limits+padding_flag<{}>",
-                if filler.is_some() { "filler" } else { "default" },
-                t.tag()
-            ),
-            VecTrim { t, .. } => format!("vector.trim_beginning<{}>", t.tag()),
-            VecResize { t, .. } => format!("vector.resize<{}>", t.tag()),
+            VecObserve { filler, .. } => format!("vector.assign_with_filler[{}]+get_limits", if filler.is_some() { "filler" } else { "default" }),
+            VecFlags { .. } => "vector.padding_flag".into(),
+            VecTrim { .. } => "vector.trim_beginning".into(),
+            VecResize { .. } => "vector.resize".into(),
             MapGet => "map.get".into(),
             MapInsert => "map.insert+succinct_repr".into(),
         }
@@ -524,9 +522,9 @@ impl Kind {
             AssignLower(b) | AssertLower(b) => format!("bound={}", bhex(b)),
             CmpFixed { n, c, .. } => format!("n={n},c={}", fhex(c)),
             DivRem { d, bound } | Rem { d, bound } => format!("d={},bound={}", bhex(d), bound.as_ref().map(bhex).unwrap_or("None".into())),
-            VecObserve { m, a, .. } => format!("M={m},A={a}"),
-            VecTrim { m, a, n, .. } => format!("M={m},A={a},n={n}"),
-            VecResize { m, a, l, .. } => format!("M={m},A={a},L={l}"),
+            VecObserve { t, m, a, .. } | VecFlags { t, m, a } => format!("{},M={m},A={a}", t.tag()),
+            VecTrim { t, m, a, n } => format!("{},M={m},A={a},n={n}", t.tag()),
+            VecResize { t, m, a, l } => format!("{},M={m},A={a},L={l}", t.tag()),
             _ => String::new(),
         };
         if extra.is_empty() {
@@ -558,7 +556,7 @@ impl Kind {
             Select(t) | CondAssertEqual(t) | CondSwap(t) => vec![Ty::B, *t, *t],
             Convert { from, .. } => vec![*from],
             ConvertUnsafeNY => vec![Ty::N],
-            AssignLower(_) | VecObserve { .. } | VecTrim { .. } | VecResize { .. } | MapGet | MapInsert => return None,
+            AssignLower(_) | VecObserve { .. } | VecFlags { .. } | VecTrim { .. } | VecResize { .. } | MapGet | MapInsert => return None,
         })
     }
 
@@ -593,6 +591,7 @@ impl Kind {
                 | CondSwap(Ty::Y)
                 | FromBytes { .. }
                 | VecObserve { .. }
+                | VecFlags { .. }
                 | VecTrim { .. }
                 | VecResize { .. }
                 | MapGet
@@ -604,7 +603,7 @@ impl Kind {
         match self {
             Kind::DivRem { bound: Some(b), .. } | Kind::Rem { bound: Some(b), .. } => big(&input[0].n()) <= *b,
             Kind::ConvertUnsafeNY => big(&input[0].n()) < BigUint::from(256u32),
-            Kind::VecObserve { m, .. } | Kind::VecTrim { m, .. } | Kind::VecResize { m, .. } => input.len() <= *m,
+            Kind::VecObserve { m, .. } | Kind::VecFlags { m, .. } | Kind::VecTrim { m, .. } | Kind::VecResize { m, .. } => input.len() <= *m,
             _ => true,
         }
     }
@@ -703,7 +702,7 @@ where
         .collect()
 }
 
-fn vec_limits_flags<L: Layouter<F>, T: Elem, const M: usize, const AL: usize>(
+fn vec_limits<L: Layouter<F>, T: Elem, const M: usize, const AL: usize>(
     s: &ZkStdLib,
     l: &mut L,
     v: &AssignedVector<F, T, M, AL>,
@@ -713,15 +712,25 @@ where
     ZkStdLib: VectorInstructions<F, T, M, AL>,
 {
     let (start, end) = s.get_limits(l, v)?;
-    let flags = s.padding_flag(l, v)?;
-    let mut out = vec![A::N(start), A::N(end)];
-    out.extend(flags.into_iter().map(A::B));
-    Ok(out)
+    Ok(vec![A::N(start), A::N(end)])
+}
+
+fn vec_flags<L: Layouter<F>, T: Elem, const M: usize, const AL: usize>(
+    s: &ZkStdLib,
+    l: &mut L,
+    v: &AssignedVector<F, T, M, AL>,
+) -> Result<Vec<A>, Error>
+where
+    T::Element: Copy,
+    ZkStdLib: VectorInstructions<F, T, M, AL>,
+{
+    Ok(s.padding_flag(l, v)?.into_iter().map(A::B).collect())
 }
 
 #[derive(Clone, Copy)]
 enum VecOp {
     Observe,
+    Flags,
     Trim(usize),
 }
 
@@ -739,25 +748,32 @@ where
     let payload = w.as_ref().map(|v| v.iter().map(T::of_v).collect::<Vec<_>>());
     let v: AssignedVector<F, T, M, AL> = s.assign_with_filler(l, payload, filler)?;
     match op {
-        VecOp::Observe => {
+        VecOp::Observe | VecOp::Flags => {
+            // the vector's length is not instance-bound by anything but its limits: payload and
+            // limits form the input section; `padding_flag` is the operation under test
             for a in vec_payload(s, l, &v)? {
                 expose(s, l, &a)?;
             }
-            for a in vec_limits_flags(s, l, &v)? {
+            for a in vec_limits(s, l, &v)? {
                 expose(s, l, &a)?;
+            }
+            if matches!(op, VecOp::Flags) {
+                for a in vec_flags(s, l, &v)? {
+                    expose(s, l, &a)?;
+                }
             }
         }
         VecOp::Trim(n) => {
             let out = s.trim_beginning(l, &v, n)?;
-            // input section: what binds the input vector (limits and flags of the input) and the
-            // off-circuit payload of the result
-            for a in vec_limits_flags(s, l, &v)? {
+            // input section: the limits of the input vector (they pin its length) and the
+            // off-circuit payload of the result; outputs: limits of the result
+            for a in vec_limits(s, l, &v)? {
                 expose(s, l, &a)?;
             }
             for a in vec_payload(s, l, &out)? {
                 expose(s, l, &a)?;
             }
-            for a in vec_limits_flags(s, l, &out)? {
+            for a in vec_limits(s, l, &out)? {
                 expose(s, l, &a)?;
             }
         }
@@ -776,14 +792,14 @@ where
 {
     let payload = w.as_ref().map(|v| v.iter().map(T::of_v).collect::<Vec<_>>());
     let v: AssignedVector<F, T, M, AL> = s.assign_with_filler(l, payload, None)?;
-    for a in vec_limits_flags(s, l, &v)? {
+    for a in vec_limits(s, l, &v)? {
         expose(s, l, &a)?;
     }
     let out: AssignedVector<F, T, LL, AL> = s.resize::<LL>(l, v)?;
     for a in vec_payload(s, l, &out)? {
         expose(s, l, &a)?;
     }
-    for a in vec_limits_flags(s, l, &out)? {
+    for a in vec_limits(s, l, &out)? {
         expose(s, l, &a)?;
     }
     Ok(())
@@ -796,11 +812,15 @@ pub fn vec_lims(m: usize, a: usize, len: usize) -> (usize, usize) {
     (m - len - back, m - back)
 }
 
-fn vec_expected_limits_flags(m: usize, a: usize, len: usize) -> Vec<F> {
+fn vec_expected_limits(m: usize, a: usize, len: usize) -> Vec<F> {
     let (start, end) = vec_lims(m, a, len);
-    let mut out = vec![F::from(start as u64), F::from(end as u64)];
-    out.extend((0..m).map(|i| fbit(!(start <= i && i < end))));
-    out
+    vec![F::from(start as u64), F::from(end as u64)]
+}
+
+/// 1 = padding, 0 = payload
+fn vec_expected_flags(m: usize, a: usize, len: usize) -> Vec<F> {
+    let (start, end) = vec_lims(m, a, len);
+    (0..m).map(|i| fbit(!(start <= i && i < end))).collect()
 }
 
 fn vec_expected_payload(m: usize, payload: &[V]) -> Vec<F> {
@@ -825,10 +845,6 @@ fn build_map(input: &[V]) -> Mt {
 // ---------------------------------------------------------------------------------------------
 
 impl Entry {
-    pub fn new(kind: Kind) -> Entry {
-        Entry { kind, cols: 1 }
-    }
-
     fn run<L: Layouter<F>>(&self, s: &ZkStdLib, l: &mut L, ins: &[A]) -> Result<Vec<A>, Error> {
         use Kind::*;
         let n = |i: usize| ins[i].n();
@@ -1016,7 +1032,7 @@ impl Entry {
                 let y: AssignedByte<F> = ng.convert_unsafe(l, n(0))?;
                 vec![A::Y(y)]
             }
-            AssignLower(_) | VecObserve { .. } | VecTrim { .. } | VecResize { .. } | MapGet | MapInsert => unreachable!("raw kinds"),
+            AssignLower(_) | VecObserve { .. } | VecFlags { .. } | VecTrim { .. } | VecResize { .. } | MapGet | MapInsert => unreachable!("raw kinds"),
         })
     }
 
@@ -1036,6 +1052,11 @@ impl Entry {
                     let f = filler.as_ref().map(|v| v.y());
                     vec_dispatch_y(*m, *a, s, l, &w, f, VecOp::Observe)
                 }
+                Ty::B => panic!("harness: bit vectors are not Vectorizable"),
+            },
+            VecFlags { t, m, a } => match t {
+                Ty::N => vec_dispatch_n(*m, *a, s, l, &w, None, VecOp::Flags),
+                Ty::Y => vec_dispatch_y(*m, *a, s, l, &w, None, VecOp::Flags),
                 Ty::B => panic!("harness: bit vectors are not Vectorizable"),
             },
             VecTrim { t, m, a, n } => match t {
@@ -1311,7 +1332,7 @@ impl Entry {
                 _ => unreachable!(),
             },
             ConvertUnsafeNY => vec![x[0].n()],
-            VecObserve { .. } | VecTrim { .. } | VecResize { .. } | MapGet | MapInsert => unreachable!("raw kinds use full_reference"),
+            VecObserve { .. } | VecFlags { .. } | VecTrim { .. } | VecResize { .. } | MapGet | MapInsert => unreachable!("raw kinds use full_reference"),
         })
     }
 
@@ -1325,24 +1346,32 @@ impl Entry {
             }
             VecObserve { m, a, .. } => {
                 let mut v = vec_expected_payload(*m, x);
-                v.extend(vec_expected_limits_flags(*m, *a, x.len()));
-                Some((v, *m))
+                v.extend(vec_expected_limits(*m, *a, x.len()));
+                let n = v.len();
+                Some((v, n))
+            }
+            VecFlags { m, a, .. } => {
+                let mut v = vec_expected_payload(*m, x);
+                v.extend(vec_expected_limits(*m, *a, x.len()));
+                let n_in = v.len();
+                v.extend(vec_expected_flags(*m, *a, x.len()));
+                Some((v, n_in))
             }
             VecTrim { m, a, n, .. } => {
                 if x.len() < *n {
                     return None;
                 }
-                let mut v = vec_expected_limits_flags(*m, *a, x.len());
+                let mut v = vec_expected_limits(*m, *a, x.len());
                 v.extend(vec_expected_payload(*m, &x[*n..]));
                 let n_in = v.len();
-                v.extend(vec_expected_limits_flags(*m, *a, x.len() - n));
+                v.extend(vec_expected_limits(*m, *a, x.len() - n));
                 Some((v, n_in))
             }
             VecResize { m, a, l, .. } => {
-                let mut v = vec_expected_limits_flags(*m, *a, x.len());
+                let mut v = vec_expected_limits(*m, *a, x.len());
                 v.extend(vec_expected_payload(*l, x));
                 let n_in = v.len();
-                v.extend(vec_expected_limits_flags(*l, *a, x.len()));
+                v.extend(vec_expected_limits(*l, *a, x.len()));
                 Some((v, n_in))
             }
             MapGet => {
@@ -1383,7 +1412,7 @@ impl Entry {
             Some(tys) => tys.len() == x.len() && tys.iter().zip(x).all(|(t, v)| *t == v.ty()),
             None => match &self.kind {
                 Kind::AssignLower(_) => x.len() == 1 && x[0].ty() == Ty::N,
-                Kind::VecObserve { t, m, .. } | Kind::VecTrim { t, m, .. } | Kind::VecResize { t, m, .. } => {
+                Kind::VecObserve { t, m, .. } | Kind::VecFlags { t, m, .. } | Kind::VecTrim { t, m, .. } | Kind::VecResize { t, m, .. } => {
                     x.len() <= *m && x.iter().all(|v| v.ty() == *t)
                 }
                 Kind::MapGet | Kind::MapInsert => x.len() >= 2 && x.len() % 2 == 0 && x.iter().all(|v| v.ty() == Ty::N),
